@@ -170,6 +170,21 @@ func genFmtCase(t *rapid.T, disagree bool) FmtCase {
 		c.Lines = append(c.Lines[:pos], append([]ragen.Line{l}, c.Lines[pos:]...)...)
 		lab["disagreement-line"] = true
 	}
+	if disagree && rapid.IntRange(0, 3).Draw(t, "labelledend") == 0 {
+		// block end markers that carry a label (any line that starts with `##!<` ends a block)
+		for i := range c.Lines {
+			if c.Lines[i].K == ragen.KEnd && rapid.Bool().Draw(t, "labelthis") {
+				c.Lines[i] = ragen.Line{K: ragen.KRaw, T: "##!< " + rapid.SampledFrom([]string{"inner block: letters", "end", "assemble"}).Draw(t, "endlabel"), Ind: c.Lines[i].Ind}
+				lab["labelled-end-marker"] = true
+			}
+		}
+	}
+	if disagree && rapid.IntRange(0, 3).Draw(t, "deftrail") == 0 {
+		// a definition line that ends in white space, and an entry that uses the definition
+		c.Lines = append([]ragen.Line{{K: ragen.KRaw, T: "##!> define sepx [,;]" + rapid.SampledFrom([]string{" ", "  ", " \t", "\t"}).Draw(t, "deftrailws")}}, c.Lines...)
+		c.Lines = append(c.Lines, ragen.Line{K: ragen.KEntry, T: "foo{{sepx}}bar"})
+		lab["definition-line-with-trailing-blanks"] = true
+	}
 	if disagree && rapid.IntRange(0, 5).Draw(t, "unbalanced") == 0 {
 		pos := rapid.IntRange(0, len(c.Lines)).Draw(t, "upos")
 		c.Lines = append(c.Lines[:pos], append([]ragen.Line{{K: ragen.KEnd}}, c.Lines[pos:]...)...)
